@@ -67,6 +67,9 @@ class Scen:
         base = dict(proto=6, id=0, ttl=64, off=0, evil=False, df=False, mf=False, l4='tcp', eth='ip')
         def E(d, **kw): e = dict(base); e.update(d); e.update(kw); return e
         for _ in range(nops):
+            if r.chance(1, 4):
+                self.n += 1
+                self.stmts.append('let q%d = %s.%s_%s;' % (self.n, f, r.choice(['client', 'server']), r.choice(['raw_segment(%s)' % lit(payload(r)), 'hdr()', 'hdr(bytes: %d)' % r.below(2000)])))
             k = r.below(10)
             if k == 0: self.emit('%s.open()' % f, [E(c2s), E(s2c), E(c2s)], wrap)
             elif k in (1, 2, 3):
@@ -91,6 +94,10 @@ class Scen:
         self.n += 1; f = 'u%d' % self.n
         self.decl.append('let %s = ipv4::udp::flow(%s:%d, %s:%d%s);' % (f, ip(cl[0]), cl[1], ip(sv[0]), sv[1], self.rawarg()))
         for _ in range(nops):
+            if r.chance(1, 3):
+                # a call that returns bytes and emits nothing must leave the flow as it was (framing, addresses, ports)
+                self.n += 1
+                self.stmts.append('let q%d = %s.%s_raw_dgram(%s%s);' % (self.n, f, r.choice(['client', 'server']), r.choice(['', 'csum: false, ']), lit(payload(r, sizes))))
             who = r.chance(1, 2); b = payload(r, sizes); fo = r.choice([0, 0, 1, 8191]); cs = r.chance(3, 4)
             args = (['frag_off: %d' % fo] if fo else []) + ([] if cs else ['csum: false']) + [lit(b)]
             a = dict(src=cl[0], dst=sv[0], sport=cl[1], dport=sv[1]) if who else dict(src=sv[0], dst=cl[0], sport=sv[1], dport=cl[1])
